@@ -56,6 +56,12 @@ def configs(tier):
                            fn=fn, form=form, n1=n1, n2=n2, n3=n3, fork=("spike_pro" in fn or "spike_dist" in fn),
                            cost=8 ** (n1 + abs(n2) + (n3 or 0)), validate=3,
                            split_forks=(8 if n1 + abs(n2) + (n3 or 0) >= 4 else None))
+                if (n1, n2, n3) in ((2, 1, None), (2, 1, 1)) and not ("spike_pro" in fn or "spike_dist" in fn):
+                    # the automatic threshold must be computed from the reconciled trains
+                    yield dict(name="measure-auto-%s-%s-%s-%d+%s+%s" % (be, fn, form, n1, n2, n3), what="measure",
+                               backend=be, fn=fn, form=form, n1=n1, n2=n2, n3=n3, auto=True,
+                               cost=3 * 8 ** (n1 + abs(n2) + (n3 or 0)), validate=2,
+                               split_forks=(8 if n1 + abs(n2) + (n3 or 0) >= 4 else None))
 
 
 def controls(tier):
@@ -210,16 +216,17 @@ def measure(E, cfg):
         fn = getattr(sd, cfg["fn"])
     snaps = [snap(t) for t in messy]
     form = cfg["form"]
+    kw = {"MRTS": "auto"} if cfg.get("auto") else {}
     with hx.quiet():
         if form == "bi":
-            r1 = fn(messy[0], messy[1])
-            r2 = fn(clean[0], clean[1], Reconcile=False)
+            r1 = fn(messy[0], messy[1], **kw)
+            r2 = fn(clean[0], clean[1], Reconcile=False, **kw)
         elif form == "filter":
-            r1 = fn(messy, 0.0, return_removed_spikes=True)
-            r2 = fn(clean, 0.0, return_removed_spikes=True, Reconcile=False)
+            r1 = fn(messy, 0.0, return_removed_spikes=True, **kw)
+            r2 = fn(clean, 0.0, return_removed_spikes=True, Reconcile=False, **kw)
         else:
-            r1 = fn(messy)
-            r2 = fn(clean, Reconcile=False)
+            r1 = fn(messy, **kw)
+            r2 = fn(clean, Reconcile=False, **kw)
     f1 = flatten(r1)
     f2 = flatten(r2)
     E.observe("result", [v for _, v in f1][:40])
